@@ -263,6 +263,25 @@ def default_roundtrip(T, eof=False):
     return bad
 
 
+def _pointers_of(v, depth=0):
+    from dissect.cstruct.types import Structure
+
+    out = []
+    if depth > 6:
+        return out
+    if type(v).__name__ == "UnionProxy":
+        v = object.__getattribute__(v, "__target__")
+    if isinstance(v, SPtr):
+        out.append(v)
+    elif isinstance(v, (list, tuple)):
+        for x in v:
+            out += _pointers_of(x, depth + 1)
+    elif isinstance(v, Structure):
+        for n in type(v).fields:
+            out += _pointers_of(getattr(v, n, None), depth + 1)
+    return out
+
+
 def data_extent(t):
     """Offset just past the last data-carrying byte of a fixed-size type (tail padding, also nested, carries no data)."""
     from dissect.cstruct.types import BaseArray, Structure
@@ -478,6 +497,12 @@ class Pipeline(T2Case):
                 inside = z3.And(zint(e[1]) >= zint(p), zint(e[1]) + zint(e[3]) <= zint(end))
                 ctx.prove(f"C09/read{i}-inside-extent", _norm(inside), info=f"read at {e[1]} len {e[3]} by {e[4]}")
             self.window(ctx, it, D, p, v, end, T)
+        if self.want("C16"):
+            # every pointer in the value, wherever it sits (array elements, nested structures), is bound to the stream that
+            # was parsed: dereferencing seeks in that stream
+            ptrs = _pointers_of(v)
+            if ptrs:
+                ctx.prove("C16/pointers-bound-to-the-parsed-stream", all(getattr(q, "_stream", None) is s for q in ptrs), info=f"{len(ptrs)} pointers")
         if self.want("C04") and T.size is not None:
             ctx.prove("C04/consumed==len(T)", ctx.eq(consumed, len(T)), info=f"len(T)={len(T)}")
         if not (self.want("C01") or self.want("C02") or self.want("C04")):
@@ -727,6 +752,23 @@ def native_pipeline(prog, compiled, props, inputs):
     obs["consumed"] = consumed
     if "C04" in props and T.size is not None and consumed != len(T):
         bad.append(f"consumed {consumed} != len(T) {len(T)}")
+    if "C16" in props:
+        from dissect.cstruct.types import Pointer, Structure
+
+        def walk(x, d=0):
+            if type(x).__name__ == "UnionProxy":
+                x = object.__getattribute__(x, "__target__")
+            if isinstance(x, Pointer):
+                if x._stream is not s:
+                    bad.append(f"pointer {x!r} is bound to another stream than the one that was parsed")
+            elif isinstance(x, list) and d < 6:
+                for y in x:
+                    walk(y, d + 1)
+            elif isinstance(x, Structure) and d < 6:
+                for n in type(x).fields:
+                    walk(getattr(x, n, None), d + 1)
+
+        walk(v)
     if "C08" in props and not has_eof_array(prog):
         s2 = io.BytesIO(data + b"\xa5" * 7)
         s2.seek(p)
